@@ -197,6 +197,9 @@ pub enum Entry {
 pub enum Cb {
     Accept,
     Reject,
+    /// the storage layer wrote the new key but then reports failure (e.g. a failing fsync after a
+    /// successful write): the callback returns Err although the persisted key IS the successor
+    RejectPersisted,
 }
 
 #[derive(Clone, Debug, PartialEq, Eq)]
@@ -226,7 +229,7 @@ pub fn sign(hid: Hid, sk: &[u8], msg: &[u8], cb: Cb, aux: Option<&mut Vec<u8>>, 
                         cb_args.push(k.to_vec());
                         match cb {
                             Cb::Accept => Ok(()),
-                            Cb::Reject => Err(()),
+                            Cb::Reject | Cb::RejectPersisted => Err(()),
                         }
                     };
                     let r = match aux {
